@@ -514,7 +514,60 @@ pub fn gen_garbage(rng: &mut Rng) -> String {
         "next",
         "jump x3000",
     ];
-    rng.pick(&LINES).to_string()
+    match rng.below(10) {
+        0..=2 => invalid_integer_line(rng),
+        3 | 4 => misspelled_name_line(rng),
+        _ => rng.pick(&LINES).to_string(),
+    }
+}
+
+/// `move r<k> <token>` where the token breaks the documented integer grammar in a known way.
+fn invalid_integer_line(rng: &mut Rng) -> String {
+    let digits = format!("{}", rng.below(200));
+    let hex = format!("{:x}", rng.below(0x2000));
+    let tok = match rng.below(16) {
+        0 => format!("--{}", digits),
+        1 => format!("+-{}", digits),
+        2 => format!("-x-{}", hex),
+        3 => format!("+#+{}", digits),
+        4 => format!("00x{}", hex),
+        5 => format!("0#{}", digits),
+        6 => format!("b10{}", 2 + rng.below(8)),
+        7 => format!("o{}8", rng.below(8)),
+        8 => format!("#{}a", digits),
+        9 => "#".to_string(),
+        10 => "-x".to_string(),
+        11 => "0x".to_string(),
+        12 => format!("x1{:04x}", rng.below(0x10000)),
+        13 => format!("{}", 65536 + rng.below(100000)),
+        14 => format!("-{}", 32769 + rng.below(30000)),
+        _ => format!("{}_", digits),
+    };
+    let name = *rng.pick(&["move", "m", "MOVE", "M"]);
+    format!("{} r{} {}", name, rng.below(8), tok)
+}
+
+/// A documented misspelling: must be rejected (the debugger only suggests the real name).
+fn misspelled_name_line(rng: &mut Rng) -> String {
+    const WORDS: [&str; 40] = [
+        "con", "proceed", "get r1", "show r1", "display r1", "put r1", "set r1 1", "mov r1 1", "mv r1 1", "assign r1 1",
+        "dump", "register", "regs", "jump x3000", "go x3000", "go-to x3000", "jsr x3000", "source", "src", "inspect",
+        "run add r1 r1 #1", "exec add r1 r1 #1", "instr add r1 r1 #1", "restart", "refresh", "reboot", "halt", "end", "stop",
+        "next", "step-over", "into", "stepin", "finish", "fin", "break-list", "blist", "badd x3000", "brm x3000", "step next",
+    ];
+    let word = *rng.pick(&WORDS);
+    // Random letter case of the command word only
+    let mut parts = word.splitn(2, ' ');
+    let head: String = parts
+        .next()
+        .unwrap_or("")
+        .chars()
+        .map(|c| if rng.chance(1, 3) { c.to_ascii_uppercase() } else { c })
+        .collect();
+    match parts.next() {
+        Some(rest) => format!("{} {}", head, rest),
+        None => head,
+    }
 }
 
 #[derive(Clone, Copy, Debug, PartialEq)]
